@@ -48,9 +48,12 @@ class Eff(pyexpr.Tr):
         self.fresh = 0
         self.mode = "state"                 # 'state': results are (s, option kind); 'loop': inl value / inr kind
         self.loop_var = None
-        for reserved in ("e", "s"):
-            if reserved in self.vars:
-                raise U(f"the name {reserved} is reserved")
+
+    @staticmethod
+    def v(name):
+        """Gallina identifier of a Python-level name (parameter or local): prefixed, so that no local can capture the
+        translator's own variables e, s, a, c, c_<n>, er, k_"""
+        return "v_" + name
 
     # ------------------------------------------------------------ expressions
     def expr(self, e):
@@ -61,7 +64,7 @@ class Eff(pyexpr.Tr):
             if e.id == "self":
                 return sn, "Z"
             if e.id in self.vars:
-                return e.id, self.vars[e.id]
+                return self.v(e.id), self.vars[e.id]
             raise U(f"unknown name {e.id}")
         if isinstance(e, ast.Attribute) and isinstance(e.value, ast.Name) and e.value.id == "self":
             if self.self_kind == "cell":
@@ -157,7 +160,7 @@ class Eff(pyexpr.Tr):
 
     # ------------------------------------------------------------ results
     def _end(self):
-        return "(s, None)" if self.mode == "state" else f"(inl {self.loop_var})"
+        return "(s, None)" if self.mode == "state" else f"(inl {self.v(self.loop_var)})"
 
     def _raise(self, kind):
         return f"(s, Some {kind})" if self.mode == "state" else f"(inr {kind})"
@@ -218,14 +221,12 @@ class Eff(pyexpr.Tr):
 
                 def k(c):
                     self.vars[name] = "ocell"
-                    return f"(let {name} := CS.e_conn e {c} {d} in {self.stmts(rest)})"
+                    return f"(let {self.v(name)} := CS.e_conn e {c} {d} in {self.stmts(rest)})"
                 return self._with_cell(v.func.value.value, k)
             if isinstance(tg, ast.Name):
-                if tg.id in ("e", "s"):
-                    raise U("reserved name")
                 t, k = self.expr(v)
                 self.vars[tg.id] = k
-                return f"(let {tg.id} := {t} in {self.stmts(rest)})"
+                return f"(let {self.v(tg.id)} := {t} in {self.stmts(rest)})"
             if isinstance(tg, ast.Attribute) and isinstance(tg.value, ast.Name) and tg.value.id == "self":
                 t, k = self.expr(v)
                 sn = self.self_name
@@ -275,8 +276,9 @@ class Eff(pyexpr.Tr):
             body_t = self.stmts(list(st.body))
             self.mode, self.loop_var = "state", None
             self.vars[v] = kind_v
-            return (f"(match CS.loop_n (Z.to_nat {n}) (fun {v} => {body_t}) {v} with "
-                    f"inr k_ => (s, Some k_) | inl {v} => {self.stmts(rest)} end)")
+            pv = self.v(v)
+            return (f"(match CS.loop_n (Z.to_nat {n}) (fun {pv} => {body_t}) {pv} with "
+                    f"inr k_ => (s, Some k_) | inl {pv} => {self.stmts(rest)} end)")
         raise U("statement " + ast.unparse(st)[:60])
 
 
@@ -355,14 +357,14 @@ def c_add_agent():
     fn = _method(CELL, "Cell", "add_agent")
     _params(fn, ["self", "agent"])
     t = _wrap("Cell.add_agent", lambda: Eff("cell", "c", {"agent": "Z"}, [("Exception", "CS.E_FULL")]).stmts(_body(fn)))
-    return f"Definition gen_add_agent (e : CS.env) (s : CS.state) (c agent : Z) : CS.state * option Z :=\n  {t}."
+    return f"Definition gen_add_agent (e : CS.env) (s : CS.state) (c v_agent : Z) : CS.state * option Z :=\n  {t}."
 
 
 def c_remove_agent():
     fn = _method(CELL, "Cell", "remove_agent")
     _params(fn, ["self", "agent"])
     t = _wrap("Cell.remove_agent", lambda: Eff("cell", "c", {"agent": "Z"}).stmts(_body(fn)))
-    return f"Definition gen_remove_agent (e : CS.env) (s : CS.state) (c agent : Z) : CS.state * option Z :=\n  {t}."
+    return f"Definition gen_remove_agent (e : CS.env) (s : CS.state) (c v_agent : Z) : CS.state * option Z :=\n  {t}."
 
 
 # ---------------------------------------------------------------- cell_agent.py
@@ -371,8 +373,7 @@ def c_getters():
     CellAgent / FixedAgent / Grid2DMovingAgent must have the bases the dispatch of the model assumes"""
     for cls in ("HasCell", "FixedCell"):
         fn = _method(AGENT, cls, "cell", getter=True)
-        b = _body(fn)
-        if len(b) != 1 or ast.unparse(b[0]) != "return self._mesa_cell":
+        if pyexpr.normalized_statements(fn) != ["return self._mesa_cell"]:
             raise T.Broken(f"{cls}.cell getter is not `return self._mesa_cell`")
     bases = {"FixedCell": ["HasCell"], "CellAgent": ["Agent", "HasCell", "BasicMovement"],
              "FixedAgent": ["Agent", "FixedCell"], "Grid2DMovingAgent": ["CellAgent"]}
@@ -387,28 +388,28 @@ def c_cell_setter():
     fn = _method(AGENT, "HasCell", "cell", setter=True)
     _params(fn, ["self", "cell"])
     t = _wrap("HasCell.cell setter", lambda: Eff("agent", "a", {"cell": "ocell"}).stmts(_body(fn)))
-    return f"Definition gen_cell_setter (e : CS.env) (s : CS.state) (a : Z) (cell : option Z) : CS.state * option Z :=\n  {t}."
+    return f"Definition gen_cell_setter (e : CS.env) (s : CS.state) (a : Z) (v_cell : option Z) : CS.state * option Z :=\n  {t}."
 
 
 def c_fixed_setter():
     fn = _method(AGENT, "FixedCell", "cell", setter=True)
     _params(fn, ["self", "cell"])
     t = _wrap("FixedCell.cell setter", lambda: Eff("agent", "a", {"cell": "ocell"}, [("ValueError", "CS.E_FIXED")]).stmts(_body(fn)))
-    return f"Definition gen_fixed_setter (e : CS.env) (s : CS.state) (a : Z) (cell : option Z) : CS.state * option Z :=\n  {t}."
+    return f"Definition gen_fixed_setter (e : CS.env) (s : CS.state) (a : Z) (v_cell : option Z) : CS.state * option Z :=\n  {t}."
 
 
 def c_move_to():
     fn = _method(AGENT, "BasicMovement", "move_to")
     _params(fn, ["self", "cell"])
     t = _wrap("move_to", lambda: Eff("agent", "a", {"cell": "ocell"}).stmts(_body(fn)))
-    return f"Definition gen_move_to (e : CS.env) (s : CS.state) (a : Z) (cell : option Z) : CS.state * option Z :=\n  {t}."
+    return f"Definition gen_move_to (e : CS.env) (s : CS.state) (a : Z) (v_cell : option Z) : CS.state * option Z :=\n  {t}."
 
 
 def c_move_relative():
     fn = _method(AGENT, "BasicMovement", "move_relative")
     _params(fn, ["self", "direction"])
     t = _wrap("move_relative", lambda: Eff("agent", "a", {"direction": "vec"}, [("ValueError", "CS.E_NODIR")]).stmts(_body(fn)))
-    return f"Definition gen_move_relative (e : CS.env) (s : CS.state) (a : Z) (direction : list Z) : CS.state * option Z :=\n  {t}."
+    return f"Definition gen_move_relative (e : CS.env) (s : CS.state) (a : Z) (v_direction : list Z) : CS.state * option Z :=\n  {t}."
 
 
 def c_move2d():
@@ -418,7 +419,7 @@ def c_move2d():
         raise T.Broken("move: default of distance is not 1")
     t = _wrap("Grid2DMovingAgent.move", lambda: Eff("agent", "a", {"direction": "name", "distance": "Z"},
                                                      [("ValueError", "CS.E_BADDIR"), ("ValueError", "CS.E_NODIR")]).stmts(_body(fn)))
-    return f"Definition gen_move2d (e : CS.env) (s : CS.state) (a : Z) (direction : list Z) (distance : Z) : CS.state * option Z :=\n  {t}."
+    return f"Definition gen_move2d (e : CS.env) (s : CS.state) (a : Z) (v_direction : list Z) (v_distance : Z) : CS.state * option Z :=\n  {t}."
 
 
 def c_cellagent_remove():
@@ -450,12 +451,13 @@ def c_empties():
         raise T.Broken("empties: the filter takes one argument")
     x = lam.args.args[0].arg
     t = _wrap("empties filter", lambda: Eff("space", "sp", {x: "Z"}).bexpr(lam.body))
-    return f"Definition gen_empties (e : CS.env) (s : CS.state) : list Z :=\n  filter (fun {x} => {t}) (CS.cells_dom e)."
+    return f"Definition gen_empties (e : CS.env) (s : CS.state) : list Z :=\n  filter (fun {Eff.v(x)} => {t}) (CS.cells_dom e)."
 
 
-GRID_SKELETON = ("if self._try_random:\n    while True:\n        cell = self.all_cells.select_random_cell()\n"
-                 "        if <accepts>:\n            return cell\nelse:\n    return super().select_random_empty_cell()")
-SPACE_SKELETON = "return self.random.choice(list(self.empties))"
+GRID_SKELETON = ["if self._try_random:\n    while True:\n        v0 = self.all_cells.select_random_cell()\n"
+                 "        if <accepts>:\n            return v0\nelse:\n    return super().select_random_empty_cell()"]
+SPACE_SKELETON = ["return self.random.choice(list(self.empties))"]
+RANDOM_CELL_SKELETON = ["return self.random.choice(self.cells)"]
 
 
 def _grid_loop():
@@ -470,30 +472,41 @@ def _grid_loop():
     return fn, b[0], wh[0].body[1]
 
 
-def c_try_random_accepts():
+def _drawn_name():
+    """the local the rejection-sampling loop binds the drawn cell to (any name)"""
     fn, top, test = _grid_loop()
-    t = _wrap("rejection-sampling test", lambda: Eff("space", "sp", {"cell": "Z"}).bexpr(test.test))
-    return f"Definition gen_try_random_accepts (s : CS.state) (cell : Z) : bool :=\n  {t}."
+    wh = [n for n in top.body if isinstance(n, ast.While)][0]
+    draw = wh.body[0]
+    if not (isinstance(draw, ast.Assign) and len(draw.targets) == 1 and isinstance(draw.targets[0], ast.Name)):
+        raise T.Broken("Grid.select_random_empty_cell: the loop does not start with `<name> = <draw>`")
+    return draw.targets[0].id, test
+
+
+def c_try_random_accepts():
+    name, test = _drawn_name()
+    t = _wrap("rejection-sampling test", lambda: Eff("space", "sp", {name: "Z"}).bexpr(test.test))
+    return f"Definition gen_try_random_accepts (s : CS.state) ({Eff.v(name)} : Z) : bool :=\n  {t}."
 
 
 def c_random_empty_skeleton():
-    """the statements around the translated acceptance test, verbatim (random draws and `while True` are not
-    translatable): Grid draws from all cells until the test accepts, or defers to DiscreteSpace, which draws from
-    `empties`; CellCollection.select_random_cell draws from the collection's cells"""
+    """the statements around the translated acceptance test (random draws and `while True` are not translatable):
+    Grid draws from all cells until the test accepts, or defers to DiscreteSpace, which draws from `empties`;
+    CellCollection.select_random_cell draws from the collection's cells.  Compared modulo the names of local variables,
+    docstrings, comments and formatting (pyexpr.normalized_statements)."""
     fn, top, test = _grid_loop()
     saved = test.test
     test.test = ast.Name(id="<accepts>", ctx=ast.Load())
-    got = ast.unparse(top)
-    test.test = saved
+    try:
+        got = pyexpr.normalized_statements(fn)
+    finally:
+        test.test = saved
     if got != GRID_SKELETON:
-        raise T.Broken("statement skeleton of Grid.select_random_empty_cell changed")
+        raise T.Broken("statement skeleton of Grid.select_random_empty_cell changed: " + repr(got)[:200])
     fn2 = _method(SPACE, "DiscreteSpace", "select_random_empty_cell")
-    b2 = _body(fn2)
-    if len(b2) != 1 or ast.unparse(b2[0]) != SPACE_SKELETON:
+    if pyexpr.normalized_statements(fn2) != SPACE_SKELETON:
         raise T.Broken("DiscreteSpace.select_random_empty_cell is not `return self.random.choice(list(self.empties))`")
     fn3 = _method("mesa/discrete_space/cell_collection.py", "CellCollection", "select_random_cell")
-    b3 = _body(fn3)
-    if len(b3) != 1 or ast.unparse(b3[0]) != "return self.random.choice(self.cells)":
+    if pyexpr.normalized_statements(fn3) != RANDOM_CELL_SKELETON:
         raise T.Broken("CellCollection.select_random_cell is not `return self.random.choice(self.cells)`")
     return "Definition gen_random_empty_skeleton_ok : bool := true."
 
@@ -507,17 +520,17 @@ CONSTRUCTS = [
     ("cell_agents_code", CELL, c_cell_agents, _fb("gen_cell_agents (s : CS.state) (c : Z) : list Z", "[0]")),
     ("cell_is_empty_code", CELL, c_is_empty, _fb("gen_is_empty (s : CS.state) (c : Z) : bool", "false")),
     ("cell_is_full_code", CELL, c_is_full, _fb("gen_is_full (e : CS.env) (s : CS.state) (c : Z) : bool", "true")),
-    ("cell_add_agent_code", CELL, c_add_agent, _fb(f"gen_add_agent (e : CS.env) (s : CS.state) (c agent : Z) : {_ST}", "(s, Some 0)")),
-    ("cell_remove_agent_code", CELL, c_remove_agent, _fb(f"gen_remove_agent (e : CS.env) (s : CS.state) (c agent : Z) : {_ST}", "(s, Some 0)")),
+    ("cell_add_agent_code", CELL, c_add_agent, _fb(f"gen_add_agent (e : CS.env) (s : CS.state) (c v_agent : Z) : {_ST}", "(s, Some 0)")),
+    ("cell_remove_agent_code", CELL, c_remove_agent, _fb(f"gen_remove_agent (e : CS.env) (s : CS.state) (c v_agent : Z) : {_ST}", "(s, Some 0)")),
     ("cell_getters", AGENT, c_getters, lambda: "Definition gen_cell_getters_ok : bool := false."),
-    ("cell_setter_code", AGENT, c_cell_setter, _fb(f"gen_cell_setter (e : CS.env) (s : CS.state) (a : Z) (cell : option Z) : {_ST}", "(s, Some 0)")),
-    ("fixed_setter_code", AGENT, c_fixed_setter, _fb(f"gen_fixed_setter (e : CS.env) (s : CS.state) (a : Z) (cell : option Z) : {_ST}", "(s, Some 0)")),
-    ("move_to_code", AGENT, c_move_to, _fb(f"gen_move_to (e : CS.env) (s : CS.state) (a : Z) (cell : option Z) : {_ST}", "(s, Some 0)")),
-    ("move_relative_code", AGENT, c_move_relative, _fb(f"gen_move_relative (e : CS.env) (s : CS.state) (a : Z) (direction : list Z) : {_ST}", "(s, Some 0)")),
-    ("move2d_code", AGENT, c_move2d, _fb(f"gen_move2d (e : CS.env) (s : CS.state) (a : Z) (direction : list Z) (distance : Z) : {_ST}", "(s, Some 0)")),
+    ("cell_setter_code", AGENT, c_cell_setter, _fb(f"gen_cell_setter (e : CS.env) (s : CS.state) (a : Z) (v_cell : option Z) : {_ST}", "(s, Some 0)")),
+    ("fixed_setter_code", AGENT, c_fixed_setter, _fb(f"gen_fixed_setter (e : CS.env) (s : CS.state) (a : Z) (v_cell : option Z) : {_ST}", "(s, Some 0)")),
+    ("move_to_code", AGENT, c_move_to, _fb(f"gen_move_to (e : CS.env) (s : CS.state) (a : Z) (v_cell : option Z) : {_ST}", "(s, Some 0)")),
+    ("move_relative_code", AGENT, c_move_relative, _fb(f"gen_move_relative (e : CS.env) (s : CS.state) (a : Z) (v_direction : list Z) : {_ST}", "(s, Some 0)")),
+    ("move2d_code", AGENT, c_move2d, _fb(f"gen_move2d (e : CS.env) (s : CS.state) (a : Z) (v_direction : list Z) (v_distance : Z) : {_ST}", "(s, Some 0)")),
     ("cellagent_remove_code", AGENT, c_cellagent_remove, _fb(f"gen_cellagent_remove (e : CS.env) (s : CS.state) (a : Z) : {_ST}", "(s, Some 0)")),
     ("fixedagent_remove_code", AGENT, c_fixedagent_remove, _fb(f"gen_fixedagent_remove (e : CS.env) (s : CS.state) (a : Z) : {_ST}", "(s, Some 0)")),
     ("empties_code", SPACE, c_empties, _fb("gen_empties (e : CS.env) (s : CS.state) : list Z", "[]")),
-    ("try_random_accepts_code", GRID, c_try_random_accepts, _fb("gen_try_random_accepts (s : CS.state) (cell : Z) : bool", "true")),
+    ("try_random_accepts_code", GRID, c_try_random_accepts, _fb("gen_try_random_accepts (s : CS.state) (v_cell : Z) : bool", "true")),
     ("random_empty_skeleton", GRID, c_random_empty_skeleton, lambda: "Definition gen_random_empty_skeleton_ok : bool := false."),
 ]
